@@ -300,6 +300,28 @@ Proof.
     apply struct_roundtrip_gen; auto. destruct v; auto.
 Qed.
 
+(* dst[j] = row / dst.append(row) for a row object of another table: what the destination then
+   shows is the normal form, under the destination schema, of the object the source row showed *)
+Theorem transfer_roundtrip src dst bs bs' fuel :
+  rt_ok (t_schema dst) = true -> shape_ok (t_schema dst) = true ->
+  transfer round32 widen32 src dst bs = EOk bs' ->
+  exists obj rest,
+    decode_top widen32 (rt_fuel bs) src bs = DOk obj rest /\
+    validate_and_encode round32 dst obj = EOk bs' /\
+    ((t_nullable dst = true -> obj <> VNull -> bs' <> []) ->
+     decode_top widen32 fuel dst bs' = DOk (norm_top dst obj) []).
+Proof.
+  intros Hok Hsh Ht. unfold transfer in Ht.
+  destruct (decode_top widen32 (rt_fuel bs) src bs) as [obj rest| | |] eqn:Ed; try discriminate Ht.
+  exists obj, rest. repeat split; auto. intros Hne. eapply struct_roundtrip_top; eauto.
+Qed.
+
+(* ... and a row whose object the destination schema does not accept is refused *)
+Theorem transfer_invalid_rejected src dst bs obj rest :
+  decode_top widen32 (rt_fuel bs) src bs = DOk obj rest -> valid_top dst obj = false ->
+  transfer round32 widen32 src dst bs = EErr EValidation.
+Proof. intros Hd Hv. unfold transfer. rewrite Hd. unfold validate_and_encode. rewrite Hv. reflexivity. Qed.
+
 End Top.
 
 (* F9g: object|null with an empty encoding does not come back *)
